@@ -143,6 +143,36 @@ EXPLANATION = {
            "on_completed and leaves the batch loop early only when the subscriber disposed; FH-1 the parquet writer is closed (footer) before the file it opened, and both before the terminal event; a caller's file object is not closed; DP-6 (batch). pyarrow is trusted.",
 }
 
+# clauses added after the texts above were written (seed round f, mutation round 4); appended so that every evidence file names them
+_PLUMB = (" Also, on the modules of this property: SUB-3 every subscription an operator makes passes a handler for on_next, on_error and "
+          "on_completed (or the whole observer) and subscribes its source at most once on a path; GEN-3 every function that builds an "
+          "operator's observable returns a value on every path.")
+_ADDED = {
+    "C01": _PLUMB,
+    "C02": " TP-1 the state topology gives every declaration a new state id (create_mapper included); MX-6 one topology is probed by every subscriber of a merged source.",
+    "C03": " TP-1 (state ids are never shared between declarations); SUB-3 (see C01) on every module.",
+    "C04": " FWD-1 the public group_by hands key_mapper and pipeline unchanged to the implementation; TP-1 two group_by in one pipeline get two mapper states." + _PLUMB,
+    "C05": " FWD-1 the public roll hands window and stride unchanged to the implementation." + _PLUMB,
+    "C06": " FWD-1 the public split hands predicate and pipeline unchanged to the implementation; MX-6 one shared topology when several multiplexed sources are merged." + _PLUMB,
+    "C07": " FWD-1 the public time_split hands both timeouts, the time mapper, closing_mapper and include_closing_item unchanged to the implementation (no clamping or defaulting)." + _PLUMB,
+    "C08": " TM-3 every application of tee_map publishes its own connectable from its source, also when the source is itself a connectable proxy." + _PLUMB,
+    "C09": _PLUMB,
+    "C10": _PLUMB,
+    "C11": " TM-1..4 for tee_map: the join completes with its last branch, not with the source." + _PLUMB,
+    "C12": " The per-key-state obligations of the memory store for the declared types int / float / bool / obj (MS-5: float states are C doubles).",
+    "C13": " ER-4 starmap is map(lambda i: mapper(*i)): one call of the user function, no handler of its own." + _PLUMB,
+    "C14": " TP-1 (state ids).",
+    "C15": " FR-2 guard: the size test of frame rejects only lengths that do not fit in prefix_size bytes (folded for 1, 2, 4, 8)." + _PLUMB,
+    "C16": _PLUMB,
+    "C17": _PLUMB,
+    "C18": " CS-5 also: the reader decodes the whole file with one decoder (text-mode file or incremental decode stage, never chunk by chunk) using the encoding it was given; the writer creates / truncates the file." + _PLUMB,
+    "C19": _PLUMB,
+    "C20": " PU-2 also: the writer is opened on the given schema without an option that rewrites names or values (flavor, timestamp coercion); file modes 'wb' / 'rb'; the loader runs to completion for a path and for a file object." + _PLUMB,
+}
+for _k, _v in _ADDED.items():
+    EXPLANATION[_k] = EXPLANATION[_k] + _v
+
+
 DEFAULT_LEVEL_TEXT = ("Static analysis: the named structural clauses (necessary conditions of the property) are decided on every "
                       "control path of the anchored functions, for every event kind and configuration; the behaviour as a whole is not.")
 DEFAULT_LEVEL_NOTE = ("Trusted: python ast; RxPY delivery semantics; the idiom tables of the checker. The induction over operator "
